@@ -7,7 +7,9 @@ import patlib
 import wpt
 from lib import hx
 
-COMPS = ["protocol", "username", "password", "hostname", "ipv6hostname", "port", "portproto", "pathname", "opaquepathname", "search", "hash"]
+COMPS = ["protocol", "username", "password", "hostname", "ipv6hostname", "port", "portproto", "pathname", "opaquepathname", "search", "hash",
+         "escpattern", "escregexp", "procbase", "isipv6", "isabs"]
+HELPERS = ("escpattern", "escregexp", "procbase", "isipv6", "isabs")
 PROTOS = ["", "http", "https", "ws", "wss", "ftp", "file", "http:", "https:", "ftp:", "foo", "foo:", ":", "HTTP", "httpx", "htt", "wss:", "ws:", "fake"]
 SIMPLE_PATH = list("abcxyzABCXYZ0189/_~-")
 SIMPLE_HOST = list("abcxyz0189-.")
@@ -16,6 +18,10 @@ TN = ["\t", "\n", "\r"]
 
 def gen_value(rng, comp):
     r = rng.random()
+    if comp in HELPERS:
+        # ASCII only (the escapers assert it); pattern / regexp syntax, brackets, slashes at the first two positions
+        return patlib._rand_text(rng, list("ab01+*?:{}()\\[]/.^$|-_~ "), 0, 6) if r < 0.7 else \
+            rng.choice(["", "/", "{/", "\\/", "{", "\\", "[", "{[", "\\[", "[::1]", "{[::1]}", "/a", "a/", "{a/", "x" * 9])
     if comp == "opaquepathname":
         if r < 0.35:
             pre = patlib._rand_text(rng, list("ab /.%é\x01\x7f~") + TN, 0, 5)
@@ -56,7 +62,7 @@ def explore(run, binp, n):
     for _ in range(n):
         c = rng.choice(COMPS)
         v = gen_value(rng, c)
-        p = rng.choice(PROTOS) if c == "portproto" else ""
+        p = rng.choice(PROTOS) if c == "portproto" else (rng.choice(["p", "u"]) if c in ("procbase", "isabs") else "")
         lim = ""
         if c in ("pathname", "hostname", "protocol") and rng.random() < 0.15:
             lim = " L=" + str(max(0, len(v.encode("utf-8", "surrogateescape")) + rng.choice([0, 5, 10, 13, 14, 15, 16, 17, 18, 19, 20, 22, 30])))
